@@ -461,7 +461,12 @@ class InMemoryStateStore(Generic[MODEL_T]):
         Returns:
             MODEL_T: A `.model_copy()` of the internal Pydantic model.
         """
-        return self._state.model_copy()
+        snapshot = self._state.model_copy()
+        if isinstance(snapshot, DictState):
+            # model_copy() shares the private ``_data`` dict: give the snapshot
+            # its own top-level mapping so editing it cannot reach the store.
+            snapshot._data = dict(self._state._data)
+        return snapshot
 
     async def set_state(self, state: MODEL_T) -> None:
         """Replace or merge into the current state model.
